@@ -70,6 +70,11 @@ def run(ctx):
             raise AnalysisBroken("UnboundedSPSCQueue not found")
         byname = {m.base: m for m in facts.fns if m.config == cfg and m.cls == c02.CLS and not m.rec.get("ctor") and not m.rec.get("dtor")}
         c02.check_r4(Renamed(ctx, "C02.R4", "C09.R4"), byname, strict=True)
+        # a producer resumes only if the backend reads its queue at all (registration / cache reload, = C20.R5) and consumes what is
+        # at its head (a record that is held back for ever blocks everything behind it: hold-back rules, = C05.R2)
+        from rules import c20, c05
+        c20.r5(Renamed(ctx, "C20.R5", "C09.R6"), facts, cfg)
+        c05.r2(Renamed(ctx, "C05.R2", "C09.R7"), facts, cfg)
         # unbounded commit_read / finish_read delegate to the consumer node's bounded queue
         for mname in ("commit_read", "finish_read"):
             m = byname.get(mname)
@@ -126,6 +131,27 @@ def check_drain_publish(ctx, facts, cfg, crec):
             ends = gg.return_nodes(lambda r: is_null(r.get("val")))
         if ends and not gg.exists_path([gg.entry_node], ends, avoid_nodes=pp):
             b_ok = True
+    # R1c: 'drained' in commit_read is judged against _writer_pos_cache: that only means something if the cache holds the writer
+    # position the consumer last saw — on every path on which the queue is reported empty (empty() true / prepare_read() nullptr) the
+    # cache was assigned from an acquire load of _atomic_writer_pos. (The cache then lies between _reader_pos and the true writer
+    # position, so 'really drained' implies cache == reader.)
+    if a_ok and not b_ok:
+        fresh_ok = False
+        for mname in ("empty",):
+            mm = meths[mname]
+            gg = mm.g
+            asg = [n for n in mm.walk() if n["k"] == "BinaryOperator" and n["op"] == "=" and is_this_field(n["lhs"], "_writer_pos_cache") and
+                   (atomic_op(strip(n["rhs"], casts=True)) or {}).get("kind") == "load" and is_this_field(atomic_op(strip(n["rhs"], casts=True))["obj"], "_atomic_writer_pos")]
+            ap = [p for n in asg for p in gg.positions(n)]
+            ends = gg.return_nodes(lambda r: const_val(r.get("val")) == 1)
+            if not ends:
+                # 'return <comparison>': every path counts
+                ends = gg.return_nodes()
+            fresh_ok = bool(ap) and bool(ends) and not gg.exists_path([gg.entry_node], ends, avoid_nodes=ap)
+        ctx.ob("C09.R1c", "%s::empty:writer-cache-refreshed" % tag, fresh_ok,
+               "whenever the queue is reported empty, _writer_pos_cache — the value commit_read's 'drained' test compares _reader_pos with — "
+               "has just been assigned from an acquire load of _atomic_writer_pos (a cache nobody refreshes makes the drained test dead "
+               "and the producer computes its free space from a stale position)", fn=meths["empty"])
     ctx.ob("C09.R1", "%s::commit_read:drain-implies-publish" % tag, a_ok or b_ok,
            "when the consumer has drained the queue (_reader_pos == _writer_pos_cache) its position is published to the producer "
            "[commit_read guard implied by 'drained': %s; publish on the empty path: %s]" % (a_ok, b_ok), fn=m,
